@@ -226,7 +226,7 @@ def val(i: int, k: int) -> float:
 
 
 def out_value(s: Any) -> float | None:
-    return None if s.value is None else s.value.as_watts()
+    return None if s.value is None else s.value.base_value
 
 
 def same_value(a: float | None, b: float | None) -> bool:
